@@ -90,6 +90,15 @@ let run_case (toks : string list) : string option =
       then recv6 c Z0 (if from = "-" then None else Some (unhex from)) b
       else recv4 c Z0 b in
     Some (observe res expect)
+  | ["sockerr"; cfg; what] ->
+    let c = parse_rcfg cfg in
+    let k = z_of_int 13 in
+    let rd = (match what with
+        | "select" -> SelectError k
+        | "read" -> Readable (SrError k)
+        | "wouldblock" -> Readable SrWouldBlock
+        | _ -> NotReadable) in
+    Some (observe (recv_probe c Z0 None rd) "-")
   | "tcpsock" :: cfg :: outcome :: sp :: dp :: rest ->
     let c = parse_rcfg cfg in
     let expect = (match rest with e :: _ -> e | [] -> "-") in
